@@ -96,7 +96,7 @@ PROPS = {
                 rule="method x Content-Type grid (standard, unknown and lower-case methods; parameters, empty, malformed and random media types) with the dispatch observed through recording Config.Parsers; query strings x keys for urlDataProvider.Get; non-trivial = a non-GET/HEAD request or a present/repeated parameter; distinct = distinct (method, content type) or (query, key)",
                 families=[sat("http", "http", 1200, 12000, ["dispatch", "urlget", "dispatch_rfc", "dispatch_media"]),
                           dict(name="fe", family="fe", profile="fe", quick=900, thorough=12000, tags=["nil", "issues", "dest", "calls", "panic"])]),
-    "C16": dict(theorems=["C16_helpers_refine_pure", "C16_pick", "C16_omit", "C16_selected", "C16_later_wins", "C16_earlier_kept", "C16_legacy_clone_refuted"],
+    "C16": dict(theorems=["C16_helpers_refine_pure", "C16_pick", "C16_omit", "C16_selected", "C16_later_wins", "C16_earlier_kept", "C16_merge_many_is_fold", "C16_legacy_clone_refuted"],
                 cone=["Model/Helpers.v", "Proofs/HelpersP.v"],
                 rule="random sequences (up to 18 operations) of Struct / Test / PostTransform / Pick / Omit (string and map[string]bool arguments, repeated keys, false entries) / Extend / Merge over bases whose slices have spare capacity; every schema created is then executed twice (all struct tests failing: fields, versions and test order; valid record: PostTransform order); distinct = distinct operation sequences",
                 families=[sat("helpers", "helpers", 1500, 30000, ["fields", "tests", "transforms"], shard=300)]),
